@@ -1985,3 +1985,42 @@ def m_artifact_mint(ex, st, func, args, argtys, dest_ty):
 @model(r"into_usize::IntoUsize>::into_usize$")
 def m_into_usize(ex, st, func, args, argtys, dest_ty):
     return [("ret", args[0], None)]
+
+
+@model(r"HashMap<.*> as Extend<\(.*\)>>::extend::<.*>$")
+def m_map_extend(ex, st, func, args, argtys, dest_ty):
+    """insert every (k, v) of the source, overwriting existing keys (std semantics)"""
+    mp = deref(args[0])
+    src = deref(args[1])
+    items = [(p[0], p[1]) for p in src] if isinstance(src, Container) else None
+    if items is None:
+        raise Unsupported("extend from %r" % (src,))
+    for k, v in items:
+        i = globals()["map_find"](ex, st, mp, k)
+        if i is None:
+            mp.append(Struct([k, v]))
+        else:
+            mp[i][1] = v
+    return [("ret", Struct([]), None)]
+
+
+@model(r"HashMap::<.*>::insert$")
+def m_map_insert(ex, st, func, args, argtys, dest_ty):
+    mp = deref(args[0])
+    i = globals()["map_find"](ex, st, mp, args[1])
+    if i is None:
+        mp.append(Struct([args[1], args[2]]))
+        return [("ret", none(), None)]
+    old = mp[i][1]
+    mp[i][1] = args[2]
+    return [("ret", some(old), None)]
+
+
+@model(r"HashMap::<.*>::contains_key::<.*>$")
+def m_map_contains(ex, st, func, args, argtys, dest_ty):
+    return [("ret", globals()["map_find"](ex, st, deref(args[0]), deref(args[1])) is not None, None)]
+
+
+@model(r"HashMap::<.*>::len$")
+def m_map_len(ex, st, func, args, argtys, dest_ty):
+    return [("ret", len(deref(args[0])), None)]
